@@ -114,6 +114,7 @@ def normalize_l1(events):
     Trace_Bucket.tla reads.  No state is guessed here."""
     out = []
     reopened = False
+    gced = False
     for e in events:
         if e.get('l') != 1:
             continue
@@ -126,7 +127,8 @@ def normalize_l1(events):
                         'nblk': e['nblk'], 'vh': e['vh'], 'res': e['res']})
         elif a == 'Get':
             r = _read(e)
-            r.update({'a': 'Get', 'n': n, 'k': e['k'], 'c': int(e.get('c', -1)), 'off': int(e.get('off', 0))})
+            r.update({'a': 'Get', 'n': n, 'k': e['k'], 'c': int(e.get('c', -1)), 'off': int(e.get('off', 0)),
+                      'afteropen': reopened, 'aftergc': gced})
             out.append(r)
         elif a == 'Incr':
             out.append({'a': 'Incr', 'n': n, 'k': e['k'], 'd': e['d'], 'res': e['res'], 'vh': e['vh']})
@@ -140,12 +142,32 @@ def normalize_l1(events):
                         'ok': 'err' not in e})
             reopened = True
         elif a == 'GC':
-            out.append({'a': 'GC', 'n': n, 'begin': e['begin'], 'end': e['end'], 'merge': bool(e.get('merge')),
-                        'res': e.get('res', 'err'), 'rb': e.get('rb', -1), 're': e.get('re', -1),
-                        'released': int(e.get('released', 0))})
+            frame = [{'c': int(c), 'before': v[0], 'after': v[1], 'same': bool(v[2])}
+                     for c, v in sorted((e.get('frame') or {}).items(), key=lambda kv: int(kv[0]))]
+            g = {'a': 'GC', 'n': n, 'begin': e['begin'], 'end': e['end'], 'merge': bool(e.get('merge')),
+                 'res': e.get('res', 'err'), 'rb': e.get('rb', -1), 're': e.get('re', -1),
+                 'released': int(e.get('released', 0)), 'old': e.get('old', {}) or {'_': True},
+                 'agesure': bool(e.get('agesure', True)), 'frame': frame, 'created': e.get('created') or [],
+                 'head': e.get('head', -1), 'second': False}
+            out.append(g)
+            gced = gced or e.get('res') == 'ok'
+
+            def scan_ev(scan, second):
+                files = [{'c': int(c), 'recs': [{'k': x[0], 'ver': x[1], 'val': x[2], 'off': x[3], 'nblk': x[4]} for x in l]}
+                         for c, l in sorted(scan.items(), key=lambda kv: int(kv[0]))]
+                return {'a': 'Scan', 'n': n, 'rb': g['rb'], 're': g['re'], 'files': files, 'second': second}
+            if 'scan' in e:
+                out.append(scan_ev(e['scan'], False))
+            if 'reads' in e:
+                out.append({'a': 'ReadAll', 'n': n, 'reads': {k: _read(x) for k, x in e['reads'].items()},
+                            'afteropen': reopened, 'aftergc': True})
+            if 'released2' in e:
+                g2 = dict(g, begin=g['rb'], end=g['re'], released=int(e['released2']), second=True, frame=[], created=[])
+                out.append(g2)
+                out.append(scan_ev(e['scan2'], True))
         elif a == 'ReadAll':
             out.append({'a': 'ReadAll', 'n': n, 'reads': {k: _read(g) for k, g in e['reads'].items()},
-                        'afteropen': reopened})
+                        'afteropen': reopened, 'aftergc': gced})
         elif a == 'End':
             out.append({'a': 'End', 'n': n})
         else:
